@@ -100,6 +100,14 @@ theorem Q.stAt_take (q : Q) (x : Item) (i : Nat) :
       cases hd : i - q.cells.length with
       | zero => exact absurd hd h3
       | succ n => simp
+theorem Q.take_old (q : Q) (x y : Item) (i : Nat) (h : q.itemAt i = some y) :
+    (q.take x).itemAt i = some y ∧ (q.take x).stAt i = q.stAt i := by
+  have hlt := Q.itemAt_some_lt q i y h
+  have hne : i ≠ q.cells.length := Nat.ne_of_lt hlt
+  exact ⟨by rw [Q.itemAt_take]; simp [hne, h], by rw [Q.stAt_take]; simp [hne]⟩
+theorem Q.take_new (q : Q) (x : Item) :
+    (q.take x).itemAt q.cells.length = some x ∧ (q.take x).stAt q.cells.length = some .reserved := by
+  exact ⟨by rw [Q.itemAt_take]; simp, by rw [Q.stAt_take]; simp⟩
 theorem Q.ready_iff (q : Q) (i : Nat) : q.ready i = true ↔ q.stAt i = some .full := by
   simp only [Q.ready, Q.stAt]
   cases q.cells[i]? with
